@@ -185,7 +185,7 @@ func (e *enumOps) checkMask(v uint64) error {
 
 func TestC19Enumerated(t *testing.T) {
 	rec := evid.New(t, "C19", "every enum type of every shipped dialect package (alias and non-alias), enumerated from the repository tree: ordinary enums - every defined constant, value+-1 around each, 0, 2^63-1, 2^63, 2^64-1; bitmask enums - 0, every defined single-bit flag, every pair, all subsets when <=10 flags; text must be the XML name / decimal / exactly the contained flag names joined by ' | ', String()==MarshalText, and UnmarshalText(MarshalText(v))==v; rejection inputs must fail; non-trivial = constant that is not the first entry, flag at a bit position >= number of entries (sparse), unnamed value; distinct by (type, value)")
-	rec.Require("defined-constant", "unnamed-value", "single-flag", "flag-pair", "sparse-flag", "rejected-text", "flag-subset")
+	rec.Require("defined-constant", "unnamed-value", "single-flag", "flag-pair", "sparse-flag", "rejected-text", "flag-subset", "all-or-all-but-one-flag", "texts-held-across-conversions")
 	enums := allEnums(t)
 	shard, shards := evid.Shard()
 	for i, e := range enums {
@@ -262,6 +262,23 @@ func TestC19Enumerated(t *testing.T) {
 					rec.Case(true, key(v), "flag-subset")
 				}
 			}
+			// every flag at once, and every flag but one (the longest texts there are)
+			if n := len(e.flags); n > 2 {
+				var all uint64
+				for _, f := range e.flags {
+					all |= f
+				}
+				for k := -1; k < n; k++ {
+					v := all
+					if k >= 0 {
+						v &^= e.flags[k]
+					}
+					if err := e.checkMask(v); err != nil {
+						fail(err)
+					}
+					rec.Case(true, key(v), "all-or-all-but-one-flag")
+				}
+			}
 			multi := 0
 			for v := range e.byValue {
 				if v != 0 && v&(v-1) != 0 {
@@ -271,6 +288,51 @@ func TestC19Enumerated(t *testing.T) {
 			if multi > 0 {
 				rec.Class("multi-bit-entries-excluded", int64(multi))
 			}
+		}
+		// texts are values of their own: the text of one value stays what it is when another value of the same type is
+		// converted afterwards (an application collects the texts of several values before it uses any of them)
+		{
+			var vals []uint64
+			if e.bitmask {
+				// zero and combinations of defined flags only: nothing is promised about other values of a bitmask
+				vals = append(vals, e.flags...)
+				if len(e.flags) >= 2 {
+					vals = append(vals, e.flags[0]|e.flags[1], e.flags[len(e.flags)-1]|e.flags[0])
+				}
+				vals = append(vals, 0)
+			} else {
+				for _, c := range e.reg.Consts {
+					vals = append(vals, c.Value)
+				}
+				vals = append(vals, 0, 77777)
+			}
+			if len(vals) > 12 {
+				vals = vals[:12]
+			}
+			texts := make([][]byte, len(vals))
+			for k, v := range vals {
+				ptr := reflect.New(e.reg.Type)
+				ptr.Elem().SetUint(v)
+				b, err := ptr.Elem().Interface().(encoding.TextMarshaler).MarshalText()
+				if err != nil {
+					if e.bitmask {
+						texts[k] = nil // not a combination of defined flags: nothing to hold
+						continue
+					}
+					fail(fmt.Errorf("MarshalText(%d): %v", v, err))
+				}
+				texts[k] = b // kept as returned, not copied
+			}
+			for k, v := range vals {
+				if texts[k] == nil {
+					continue
+				}
+				ptr := reflect.New(e.reg.Type)
+				if err := ptr.Interface().(encoding.TextUnmarshaler).UnmarshalText(texts[k]); err != nil || ptr.Elem().Uint() != v {
+					fail(fmt.Errorf("the text of value %d, taken before %d other values of the type were converted to text, now reads %q and parses to %d (err %v): a returned text changed afterwards", v, len(vals)-k-1, texts[k], ptr.Elem().Uint(), err))
+				}
+			}
+			rec.Class("texts-held-across-conversions", int64(len(vals)))
 		}
 		// rejections
 		var rejects []string
